@@ -25,6 +25,9 @@ RULE = (
     " The boundary walks of C01 (empty root, 257 roots, 128-arc OIDs, arc boundaries, sibling"
     " roots) run as bulk walks with five (bulk, policy) pairs; the same root list object is p"
     "assed on every walk of a client and must come back unchanged."
+    " Further policies cut only the k-th GETBULK answer below a full row (k = 1..3) or let on"
+    "e binding through per answer; for the authenticated levels the device reboots before req"
+    "uest 2, 3 or 5 of a two-root bulk walk, which still has to deliver everything."
 )
 ASSUMPTIONS = [
     "reference agent's GETBULK (vf/agent.py) follows RFC 3416 4.2.3; all truncation policies used are conformant",
